@@ -1083,6 +1083,183 @@ theorem code_fuel_gen (fv : Code.Fds) (hfv : FdsPlain fv) (sig : List Char) (dat
     obtain ⟨e, he⟩ := h _ hc
     exact toPy_ne_other e he.symm
 
+/-! ### Fuel monotonicity of the value model
+
+A statement about `Wire/Code.lean` alone (proved here because the computable fuel bound comes from C05): an outcome that
+is not `RecursionError` does not change when more fuel is given.  Together with `code_fuel_gen` this makes every
+outcome independent of the fuel from `codeFuel` on. -/
+
+theorem elems_congr (elem elem' : Nat → Code.URes) (tc : Char) (stop : Nat)
+    (h : ∀ off, elem off ≠ .error .recursion → elem' off = elem off) :
+    ∀ n off, Code.unmarshalElems elem tc stop n off ≠ .error .recursion →
+      Code.unmarshalElems elem' tc stop n off = Code.unmarshalElems elem tc stop n off := by
+  intro n
+  induction n with
+  | zero =>
+    intro off _
+    rw [Code.unmarshalElems.eq_def, Code.unmarshalElems.eq_def elem]
+  | succ n ih =>
+    intro off hne
+    rw [Code.unmarshalElems.eq_def] at hne ⊢
+    rw [Code.unmarshalElems.eq_def elem]
+    by_cases hlt : off < stop
+    · simp only [hlt, if_true] at hne ⊢
+      cases hp : Code.padLenOf tc off with
+      | error e => rfl
+      | ok p =>
+        simp only [hp] at hne ⊢
+        have he : elem (off + p) ≠ .error .recursion := by
+          intro hh; rw [hh] at hne; exact hne rfl
+        rw [h _ he]
+        cases hel : elem (off + p) with
+        | error e => rfl
+        | ok nv =>
+          obtain ⟨nb, v⟩ := nv
+          simp only [hel] at hne ⊢
+          by_cases hz : nb = 0
+          · simp only [hz, if_true]
+          · simp only [hz, if_false] at hne ⊢
+            have hr : Code.unmarshalElems elem tc stop n (off + p + nb) ≠ .error .recursion := by
+              intro hh; rw [hh] at hne; exact hne rfl
+            rw [ih _ hr]
+    · simp only [hlt, if_false]
+
+theorem seq_congr (one one' : List Char → Nat → Code.URes)
+    (h : ∀ ct off, one ct off ≠ .error .recursion → one' ct off = one ct off) (perr : Option SplitErr) :
+    ∀ pieces off, Code.unmarshalSeq one pieces perr off ≠ .error .recursion →
+      Code.unmarshalSeq one' pieces perr off = Code.unmarshalSeq one pieces perr off := by
+  intro pieces
+  induction pieces with
+  | nil => intro off _; simp only [Code.unmarshalSeq]
+  | cons ct ps ih =>
+    intro off hne
+    simp only [Code.unmarshalSeq] at hne ⊢
+    cases hh : ct.head? with
+    | none => rfl
+    | some tc =>
+      simp only [hh] at hne ⊢
+      cases hp : Code.padLenOf tc off with
+      | error e => rfl
+      | ok p =>
+        simp only [hp] at hne ⊢
+        have he : one ct (off + p) ≠ .error .recursion := by
+          intro hh; rw [hh] at hne; exact hne rfl
+        rw [h _ _ he]
+        cases hel : one ct (off + p) with
+        | error e => rfl
+        | ok nv =>
+          obtain ⟨nb, v⟩ := nv
+          simp only [hel] at hne ⊢
+          have hr : Code.unmarshalSeq one ps perr (off + p + nb) ≠ .error .recursion := by
+            intro hh; rw [hh] at hne; exact hne rfl
+          rw [ih _ hr]
+
+theorem top_congr (one one' : List Char → Nat → Code.URes)
+    (h : ∀ ct off, one ct off ≠ .error .recursion → one' ct off = one ct off) (sig : List Char) (off : Nat)
+    (hne : Code.unmarshalTop one sig off ≠ .error .recursion) :
+    Code.unmarshalTop one' sig off = Code.unmarshalTop one sig off := by
+  unfold Code.unmarshalTop at hne ⊢
+  have hr : Code.unmarshalSeq one (lazyPieces sig).1 (lazyPieces sig).2 off ≠ .error .recursion := by
+    intro hh; simp only [hh] at hne; exact hne rfl
+  simp only [seq_congr one one' h _ _ _ hr]
+
+/-- One more unit of fuel does not change an outcome that is not `RecursionError`. -/
+theorem one_mono (le : Bool) (data : Bytes) (fds : Code.Fds) :
+    ∀ g ct off, Code.unmarshalOne le data fds g ct off ≠ .error .recursion →
+      Code.unmarshalOne le data fds (g + 1) ct off = Code.unmarshalOne le data fds g ct off
+  | 0, ct, off, hne => by exfalso; apply hne; simp [Code.unmarshalOne]
+  | g + 1, ct, off, hne => by
+    have ih := one_mono le data fds g
+    cases ct with
+    | nil => rw [unmarshalOne_nil, unmarshalOne_nil]
+    | cons c tl =>
+      rw [unmarshalOne_succ] at hne ⊢
+      rw [unmarshalOne_succ le data fds g]
+      cases hl : Gen.Wire.unmarshallers.lookup c with
+      | none => rfl
+      | some f =>
+        simp only [hl] at hne ⊢
+        cases hc : fnClass f with
+        | fixed | bool | fd | string | signature | bad => rfl
+        | array =>
+          rw [hc] at hne
+          simp only [codeArm, List.tail_cons] at hne ⊢
+          cases hw : Code.uLenWord le data f off with
+          | error e => rfl
+          | ok dlen =>
+            simp only [hw] at hne ⊢
+            cases hh : tl.head? with
+            | none => rfl
+            | some ec =>
+              simp only [hh] at hne ⊢
+              cases hp : Code.padLenOf ec (off + 4) with
+              | error e => rfl
+              | ok p0 =>
+                simp only [hp] at hne ⊢
+                have hr : Code.unmarshalElems (Code.unmarshalOne le data fds g tl) ec (off + 4 + p0 + dlen) dlen
+                    (off + 4 + p0) ≠ .error .recursion := by
+                  intro hh; simp only [hh] at hne; exact hne rfl
+                rw [elems_congr (Code.unmarshalOne le data fds g tl) (Code.unmarshalOne le data fds (g + 1) tl) ec _
+                  (fun off h => ih tl off h) _ _ hr]
+        | struct =>
+          rw [hc] at hne
+          simp only [codeArm, List.tail_cons] at hne ⊢
+          have hr : Code.unmarshalTop (Code.unmarshalOne le data fds g) tl.dropLast off ≠ .error .recursion := by
+            intro hh; simp only [hh] at hne; exact hne rfl
+          rw [top_congr (Code.unmarshalOne le data fds g) (Code.unmarshalOne le data fds (g + 1))
+            (fun ct off h => ih ct off h) _ _ hr]
+        | variant =>
+          rw [hc] at hne
+          simp only [codeArm] at hne ⊢
+          cases hs : Code.uSignature le data off with
+          | error e => rfl
+          | ok nv =>
+            obtain ⟨nsig, vsig⟩ := nv
+            simp only [hs] at hne ⊢
+            cases hh : vsig.head? with
+            | none => rfl
+            | some vc =>
+              simp only [hh] at hne ⊢
+              cases hp : Code.padLenOf vc (off + nsig) with
+              | error e => rfl
+              | ok p =>
+                simp only [hp] at hne ⊢
+                have hr : Code.unmarshalTop (Code.unmarshalOne le data fds g) vsig (off + nsig + p) ≠
+                    .error .recursion := by
+                  intro hh; simp only [hh] at hne; exact hne rfl
+                rw [top_congr (Code.unmarshalOne le data fds g) (Code.unmarshalOne le data fds (g + 1))
+                  (fun ct off h => ih ct off h) _ _ hr]
+
+theorem one_mono_add (le : Bool) (data : Bytes) (fds : Code.Fds) (g : Nat) :
+    ∀ k ct off, Code.unmarshalOne le data fds g ct off ≠ .error .recursion →
+      Code.unmarshalOne le data fds (g + k) ct off = Code.unmarshalOne le data fds g ct off
+  | 0, _, _, _ => rfl
+  | k + 1, ct, off, h => by
+    have h1 := one_mono_add le data fds g k ct off h
+    have h2 : Code.unmarshalOne le data fds (g + k) ct off ≠ .error .recursion := by rw [h1]; exact h
+    rw [← Nat.add_assoc, one_mono le data fds (g + k) ct off h2, h1]
+
+theorem unmarshal_mono_add (sig : List Char) (data : Bytes) (off : Nat) (le : Bool) (fds : Code.Fds) (g k : Nat)
+    (h : Code.unmarshal g sig data off le fds ≠ .error .recursion) :
+    Code.unmarshal (g + k) sig data off le fds = Code.unmarshal g sig data off le fds :=
+  top_congr (Code.unmarshalOne le data fds g) (Code.unmarshalOne le data fds (g + k))
+    (fun ct off h => one_mono_add le data fds g k ct off h) sig off h
+
+/-- From `codeFuel` on, the outcome of the value model does not depend on the fuel: it is the outcome of ANY fuel that
+did not run out. -/
+theorem code_fuel_indep_gen (fv : Code.Fds) (hfv : FdsPlain fv) (sig : List Char) (data : Bytes) (off : Nat) (le : Bool)
+    (g : Nat) (hg : Code.unmarshal g sig data off le fv ≠ .error .recursion)
+    (fuel : Nat) (hV : Cost.codeFuel sig data off ≤ fuel) :
+    Code.unmarshal fuel sig data off le fv = Code.unmarshal g sig data off le fv := by
+  have hf := (code_fuel_gen fv hfv sig data off le fuel hV).1
+  have h1 := unmarshal_mono_add sig data off le fv g (max g fuel - g) hg
+  have h2 := unmarshal_mono_add sig data off le fv fuel (max g fuel - fuel) hf
+  have e1 : g + (max g fuel - g) = max g fuel := by omega
+  have e2 : fuel + (max g fuel - fuel) = max g fuel := by omega
+  rw [e1] at h1
+  rw [e2] at h2
+  rw [← h2, h1]
+
 /-- What `Code.unmarshal` returns is bounded by the input: the objects in the decoded values (`nodesList`) number at
 most `Cost.stepBound sig data off` - linear in the data length (`result_size_bounded` and `unmarshal_steps_linear`
 carried over to the value model). -/
